@@ -71,7 +71,7 @@ func (w *readyWatch) get() (bool, kit.Snap, error) {
 }
 
 // runSeq executes one operation sequence; returns false on violation.
-func e9RunSeq(r *Res, seq, variant string, depth int, stepped bool, seed uint64) bool {
+func e9RunSeq(r *Res, seq, variant string, depth int, stepped bool, palette int, seed uint64) bool {
 	var core *kit.Core
 	if stepped {
 		core = kit.NewCore(&kit.Plan{Seed: seed, PYield: 50})
@@ -84,7 +84,12 @@ func e9RunSeq(r *Res, seq, variant string, depth int, stepped bool, seed uint64)
 	rng := kit.NewRng(kit.Mix(seed, kit.HashStr(seq+variant)))
 	fam := filterFamily()
 	fA, fB := fam[2], fam[5] // l=x ; m=1 or n1/a or */c
-	mid := fam[8]            // l notin (x): intermediate clones
+	if palette == 1 {
+		// the "new" filters alternate between accept-all and l=x: an accept-all
+		// filter is what a for-filter node must NOT take for "unchanged"
+		fA, fB = fam[2], fam[0]
+	}
+	mid := fam[8] // l notin (x): intermediate clones
 	if depth == 3 {
 		mid = fam[0]
 	}
@@ -131,6 +136,7 @@ func e9RunSeq(r *Res, seq, variant string, depth int, stepped bool, seed uint64)
 	if nd.deferred {
 		cur = kit.TAll()
 	}
+	firstNew := fB
 	// window of parent contents / filters since the last barrier (unstepped)
 	rootStates := [][]metav1Object{}
 	filters := []*kit.Term{cur}
@@ -237,9 +243,11 @@ func e9RunSeq(r *Res, seq, variant string, depth int, stepped bool, seed uint64)
 			}
 			supplied = true
 		case 'N':
-			nf := fB
+			nf := firstNew
 			if cur == fB {
 				nf = fA
+			} else if cur == fA {
+				nf = fB
 			}
 			if err := nd.refilt(nf); err != nil {
 				r.V("C08", "refilter-error", "%s: %v", label(i), err)
@@ -287,13 +295,13 @@ func e9RunSeq(r *Res, seq, variant string, depth int, stepped bool, seed uint64)
 	return true
 }
 
-func e9Case(variant string, depth int, stepped bool, seqs []string, chunk int, seed uint64) Case {
-	id := fmt.Sprintf("E9/%s/d%d/stepped=%v/chunk%d", variant, depth, stepped, chunk)
-	return Case{ID: id, Desc: map[string]interface{}{"variant": variant, "depth": depth, "stepped": stepped, "sequences": len(seqs), "first": seqs[0], "last": seqs[len(seqs)-1]},
+func e9Case(variant string, depth int, stepped bool, palette int, seqs []string, chunk int, seed uint64) Case {
+	id := fmt.Sprintf("E9/%s/d%d/stepped=%v/p%d/chunk%d", variant, depth, stepped, palette, chunk)
+	return Case{ID: id, Desc: map[string]interface{}{"variant": variant, "depth": depth, "stepped": stepped, "filter_palette": palette, "sequences": len(seqs), "first": seqs[0], "last": seqs[len(seqs)-1]},
 		Bubble: true, Run: func(r *Res) {
 			n := int64(0)
 			for _, s := range seqs {
-				if !e9RunSeq(r, s, variant, depth, stepped, seed) {
+				if !e9RunSeq(r, s, variant, depth, stepped, palette, seed) {
 					break
 				}
 				n++
@@ -324,12 +332,17 @@ func init() {
 							}
 						}
 					}
-					for i := 0; i < len(ss); i += chunk {
-						j := i + chunk
-						if j > len(ss) {
-							j = len(ss)
+					for palette := 0; palette < 2; palette++ {
+						if palette == 1 && tier == "quick" && !stepped {
+							continue
 						}
-						cases = append(cases, e9Case(v, depth, stepped, ss[i:j], i/chunk, seed))
+						for i := 0; i < len(ss); i += chunk {
+							j := i + chunk
+							if j > len(ss) {
+								j = len(ss)
+							}
+							cases = append(cases, e9Case(v, depth, stepped, palette, ss[i:j], i/chunk, seed))
+						}
 					}
 				}
 			}
